@@ -3,6 +3,7 @@ import Driver.C02
 import Driver.C10
 import Driver.C08
 import Driver.C12
+import Driver.C19
 /-
   kdriver: one request per line on stdin, `model<TAB>spec` per line on stdout.
   Anything it cannot parse is answered `bad-op<TAB>bad-op` (never a default value).
@@ -19,6 +20,7 @@ def dispatch (line : String) : String :=
       else if op == "chain" then Driver.C10.handle args
       else if op.startsWith "it." then Driver.C08.handle (op.drop 3).toString args
       else if op.startsWith "pi." then Driver.C12.handle (op.drop 3).toString args
+      else if Driver.C19.owns op then Driver.C19.handle op args
       else none
   match r with
   | some (m, s) => m ++ "\t" ++ s
